@@ -102,7 +102,7 @@ class Case(object):
 def build_cases(E, ctxs, use_model, keep_far=None, variant=None):
     """-> list of Case (without .actual), or None when the model excludes E.
     Cases that exercise a known defect which can corrupt the process or fail to terminate
-    (`far-upvalue`: a closure captures a local whose slot is above 255; `far-error-operand`; `far-rest-destructure`)
+    (`far-upvalue`: a closure captures a local whose slot is above 255; `far-rest-destructure`; `iflet-else-position`)
     are marked .hazard and are executed only by the dedicated family (keep_far=name).
     variant(E, ctx) -> E' lets the classification use a per-context rewrite of E."""
     cases = []
@@ -226,6 +226,7 @@ def jstr(text):
 
 
 ABORT_LIMIT = 6
+_EXE = [None]
 _ABORT = multiprocessing.get_context("fork").Value("i", 0)
 
 
@@ -240,7 +241,9 @@ def run_cases(all_cases, chunk=600, count_bad=True):
             for c in all_cases[lo:]:
                 c.status, c.actual = "ABORTED", ""
             return
-        res = run_batch("fast", DRIVER, [jstr(c.text) for c in sub], chunk=chunk, jobs=1, timeout=3)
+        # the interpreter binary is resolved once per run (_EXE): a commit to the repository while the
+        # check is running must not change the system under test half way
+        res = _core._run_chunk(_EXE[0], DRIVER, [jstr(c.text) for c in sub], None, 3, ())
         bad = 0
         for c, (st, text) in zip(sub, res):
             c.status, c.actual = st, text
@@ -428,9 +431,9 @@ def main():
                "only as far as they transport the observation; the reference evaluator (model.py) is the oracle")
     chk.assume("sizes beyond the stated bound and constructs outside each family's grammar are not covered")
     chk.assume("cases that exercise a known defect able to derail other cases (far-upvalue: may loop for ever; "
-               "far-error-operand, far-rest-destructure: pervasive in the 260-locals contexts) are executed only in the "
+               "far-rest-destructure, iflet-else-position) are executed only in the "
                "dedicated families; they are counted as cases_not_run_known_hazard")
-    vjanet("fast")
+    _EXE[0] = vjanet("fast")
     t_start = time.time()       # the budget governs the exploration, not the (cached) build
 
     def spent():
